@@ -166,7 +166,15 @@ def main():
                  kind_free_text="rustc_private driver: dumps type-checked MIR, ADTs, impls of /repo's working tree as JSON"),
             dict(name="rrlint", path="/verif/rrlint", serves_properties=sorted(claimed),
                  kind_free_text="Python rule library over the MIR facts: CFG, dominators, flag-sensitive path search, "
-                                "value origins, effect summaries, taint"),
+                                "value origins, guard discharge, effect summaries, content taint, audit table"),
+            dict(name="witness", path="/verif/witness", serves_properties=["C03", "C09", "C19"],
+                 kind_free_text="compile_fail doctests with compiling twins (cargo +nightly test --doc) against the tree under test"),
+            dict(name="derive_family", path="/verif/derive_family", serves_properties=["C08", "C12", "C19", "C04"],
+                 kind_free_text="generated program family (derive macro x arity x mode), compiled for MIR extraction, never run"),
+            dict(name="positive", path="/verif/positive", serves_properties=["C04", "C06", "C07", "C09", "C15", "C16", "C18"],
+                 kind_free_text="positive controls: deliberately wrong code every zero-count rule must fire on (non-vacuity)"),
+            dict(name="selftest", path="/verif/selftest", serves_properties=sorted(claimed),
+                 kind_free_text="83+ compiling mutants and 14 behaviour-preserving edits: ./check selftest (both-ways test of the checker)"),
         ],
         checks=checks,
         not_applicable=na,
